@@ -68,8 +68,12 @@ class SymDict(object):
                     return None
                 if not isinstance(o, SymDict):
                     raise EngineError('SymDict.update(%r)' % (o,))
+                # in-place update: legitimate only on a dictionary object created during this call (ghost 'fresh_dicts'); an
+                # update of a dictionary that existed before is recorded and must be excluded by the caller's contract
+                it2.ctx.ghost.setdefault('dict_updates', []).append(self.term)
                 new = merged_dict(it2, self.term, o.term)
                 self.term = new          # in-place update of this dict object
+                it2.ctx.ghost.setdefault('fresh_dicts', []).append(new)
                 return None
             return Builtin('dict.update', upd)
         if name == 'values':
@@ -342,11 +346,15 @@ def register(reg):
 
     def bi_dict(it, args, kwargs, _orig=None):
         if len(args) == 1 and isinstance(args[0], AbsVal) and args[0].kind == 'abslist':
-            return SymDict(it.ctx.fresh_int('newdict'))
+            t = it.ctx.fresh_int('newdict')
+            it.ctx.ghost.setdefault('fresh_dicts', []).append(t)
+            return SymDict(t)
         if len(args) == 1 and isinstance(args[0], CatMap):
             return CatMap(args[0].arrs)
         if len(args) == 1 and isinstance(args[0], SymDict):
-            return SymDict(copied_dict(it, args[0].term))
+            t = copied_dict(it, args[0].term)
+            it.ctx.ghost.setdefault('fresh_dicts', []).append(t)
+            return SymDict(t)
         return it.B.bi_dict(it, args, kwargs)
     reg.builtin_overrides = getattr(reg, 'builtin_overrides', {})
     reg.builtin_overrides['dict'] = bi_dict
@@ -602,6 +610,13 @@ def register(reg):
             out.append(z3.ForAll([k], z3.Implies(has(od, k), has(nd, k))))
         return z_and(*out)
 
+    @reg.spec('only_new_dictionaries_updated')
+    def only_new_dictionaries_updated(it):
+        """every dictionary updated in place was created (or copied) during this call: none that the parent database, its
+        category dictionaries or its chain maps hold is touched"""
+        fresh = [str(t) for t in it.ctx.ghost.get('fresh_dicts', [])]
+        return all(str(t) in fresh for t in it.ctx.ghost.get('dict_updates', []))
+
     c_ext = reg.add(Contract(
         DB + '.extended_with', setup=setup_ext, requires=DB_INV,
         pre_state=lambda it, vars_: vars_.update(
@@ -614,6 +629,7 @@ def register(reg):
             ('parent-definitions-unchanged', 'same_D(self, old(self.d))'),
             ('parent-chain-maps-unchanged', 'maps_unchanged(self, OLDMAPS)'),
             ('parent-still-frozen', 'self.frozen == old(self.frozen)'),
+            ('internal:no-dictionary-of-the-parent-is-updated-in-place', 'only_new_dictionaries_updated()'),
             ('category-order-of-the-result',
              'same_list(result.category_list, %s) if (category is None and len(%s) > 0 and '
              'cat_is_auto(%s, 0)) else (len(result.category_list) == len(%s) + 1 and '
